@@ -424,6 +424,12 @@ func runC02Case(c cfg, seed uint64, npeers int, keys map[string]struct{}) (evals
 		}
 		if rr.Intn(3) == 0 {
 			data, k := mkData()
+			if rr.Bool() {
+				// a reply that the kernel cannot take in one go when the connection opens (EAGAIN inside conn.open)
+				data = append(data, mkRecord(d.key, 0, seq, rr.Pick(300*1024, 1<<20, 3<<20))...)
+				seq++
+				k++
+			}
 			d.openReply = data
 			d.issued[0].Add(int64(k))
 		}
